@@ -86,38 +86,53 @@ WellFormedGrid(g) ==
 \* ------------------------------------------------------------ the binner
 SortedC == LET q == B!SortPerm(TC) IN [i \in 1..Len(TC) |-> TC[q[i]]]
 SortedW == LET q == B!SortPerm(TC) IN [i \in 1..Len(TC) |-> TW[q[i]]]
-NoMemo  == [k |-> <<>>, W |-> <<>>]
+\* the memo of the derived native widths: the key it was filled under and the grid whose widths it holds
+NoMemo  == [k |-> <<>>, g |-> 0]
+Twos    == [i \in 1..Len(TC) |-> 2]        \* widths after an in-place conversion: numbers of another unit
 \* FluxBinner sorts its centres (widths travel with them); SimpleBinner is handed the ascending grid
 FreshBs == [c |-> SortedC, w |-> SortedW, memo |-> NoMemo]
-Tb(s, i) == <<s.c[i] - (s.w[i] \div 2), s.c[i] + (s.w[i] \div 2)>>
 NB == Len(TC)
+TbOf(ww, i) == <<SortedC[i] - (ww[i] \div 2), SortedC[i] + (ww[i] \div 2)>>
+Tb(s, i)    == TbOf(s.w, i)
 
 KeyOf(key, g) == CASE key = "content" -> Pts(g)
                    [] key = "length"  -> <<NP(g)>>
                    [] key = "ends"    -> <<Pts(g)[1], Pts(g)[NP(g)], NP(g)>>
                    [] OTHER           -> <<0>>
 MemoHit(v, s, g) == v.key # "none" /\ s.memo.k = KeyOf(v.key, g)
-\* full widths of the native cells an operation on grid g uses
-DW == [g \in 1..NG |-> DerivedW(Pts(g))]           \* (constant table)
-UsedW(v, s, g, wm) == IF wm = "explicit" THEN Grids[g].xw
-                      ELSE IF MemoHit(v, s, g) THEN s.memo.W ELSE DW[g]
+\* where the full widths of the native cells of an operation on grid g come from: 0 = passed by the caller,
+\* h > 0 = derived from the points of grid h (h = g unless a memo filled on another grid is hit; every key
+\* contains the number of points, so NP(h) = NP(g))
+SrcOf(v, s, g, wm) == IF wm = "explicit" THEN 0 ELSE IF MemoHit(v, s, g) THEN s.memo.g ELSE g
+DW == [g \in 1..NG |-> DerivedW(Pts(g))]
+SrcW(g, src) == IF src = 0 THEN Grids[g].xw ELSE DW[src]
+Srcs(g) == {0} \cup {h \in 1..NG : NP(h) = NP(g)}
 
 \* overlap weights of the native cells N with the target bin tb, computed once per bin and applied to every
 \* spectrum binned in the call; WMean(WVec(N, tb), f) is Binning!Binned(N, tb, f) (MeanIsBinned, checked once)
 WMean(wv, f)  == Norm(B!ISum([k \in 1..Len(wv) |-> wv[k] * f[k]]), B!ISum(wv))
 WErr2(wv, e)  == LET sw == B!ISum(wv) IN Norm(B!ISum([k \in 1..Len(wv) |-> wv[k] * wv[k] * e[k] * e[k]]), sw * sw)
 EntryW(wv, f) == IF B!ISum(wv) > 0 THEN [k |-> "num", v |-> WMean(wv, f)] ELSE [k |-> "zero"]
-Weights(v, s, g, wm) == LET N == CellsOf(Pts(g), UsedW(v, s, g, wm)) IN [i \in 1..NB |-> B!WVec(N, Tb(s, i))]
 FluxBinned(wts, f) == [i \in 1..NB |-> EntryW(wts[i], f)]
 FluxErr2(wts, e)   == [i \in 1..NB |-> IF B!ISum(wts[i]) > 0 THEN WErr2(wts[i], e) ELSE <<0, 1>>]
-SimpleBinned(s, g, f) ==
-    [i \in 1..NB |-> IF B!HistMembers(s.c, Pts(g), i) = {} THEN [k |-> "empty"]
-                     ELSE [k |-> "num", v |-> B!HistMean(s.c, Pts(g), f, i)]]
+\* everything FluxBinner computes in one call: the model on grid g (spectrum, optical depths, uncertainties) binned
+\* with native widths from src onto the target bins of full widths ww
+FluxCall(g, src, ww) ==
+    LET N   == CellsOf(Pts(g), SrcW(g, src))
+        wts == [i \in 1..NB |-> B!WVec(N, TbOf(ww, i))]
+    IN  [val |-> FluxBinned(wts, FSeq(g)), tau |-> [r \in 1..2 |-> FluxBinned(wts, TauRows(g)[r])], err2 |-> FluxErr2(wts, ESeq(g))]
+\* (a constant table: TLC evaluates each entry once, not once per state)
+FluxTab == [g \in 1..NG |-> [src \in Srcs(g) |-> [ww \in {SortedW, Twos} |-> FluxCall(g, src, ww)]]]
+SimpleBinned(g, f) ==
+    [i \in 1..NB |-> IF B!HistMembers(SortedC, Pts(g), i) = {} THEN [k |-> "empty"]
+                     ELSE [k |-> "num", v |-> B!HistMean(SortedC, Pts(g), f, i)]]
+SimpleTab == [g \in 1..NG |-> [val |-> SimpleBinned(g, FSeq(g)), tau |-> [r \in 1..2 |-> SimpleBinned(g, TauRows(g)[r])], err2 |-> <<>>]]
 NativeVals(f) == [k \in 1..Len(f) |-> [k |-> "num", v |-> Q(f[k])]]
-\* wts: the weights of this call (flux only)
-Binned(v, s, g, wts, f) == CASE v.kind = "flux"   -> FluxBinned(wts, f)
-                             [] v.kind = "simple" -> SimpleBinned(s, g, f)
-                             [] OTHER             -> NativeVals(f)
+NativeTab == [g \in 1..NG |-> [val |-> NativeVals(FSeq(g)), tau |-> <<>>, err2 |-> [k \in 1..NP(g) |-> Q(EVal(g, k) * EVal(g, k))]]]
+\* the binned model of one call
+CallOf(v, s, op) == CASE v.kind = "flux"   -> FluxTab[op.g][SrcOf(v, s, op.g, op.wm)][s.w]
+                      [] v.kind = "simple" -> SimpleTab[op.g]
+                      [] OTHER             -> NativeTab[op.g]
 \* wavelength width of a bin, converted at the bin centre (lattice units; the harness divides by its unit)
 WlW(c, w) == Norm(10000 * w, c * c)
 
@@ -131,9 +146,9 @@ NullOp == [k |-> "none", g |-> 0, wm |-> "derived", err |-> FALSE, size |-> NoSi
 \* state of the binner after the operation
 Step(v, s, op) ==
     [c    |-> s.c,
-     w    |-> IF op.k = "output" /\ v.conv = "inplace" /\ v.kind # "native" THEN [i \in 1..NB |-> 2] ELSE s.w,
+     w    |-> IF op.k = "output" /\ v.conv = "inplace" /\ v.kind # "native" THEN Twos ELSE s.w,
      memo |-> IF v.kind = "flux" /\ v.key # "none" /\ op.wm = "derived" /\ ~MemoHit(v, s, op.g)
-              THEN [k |-> KeyOf(v.key, op.g), W |-> DerivedW(Pts(op.g))] ELSE s.memo]
+              THEN [k |-> KeyOf(v.key, op.g), g |-> op.g] ELSE s.memo]
 \* what the call returns / what the output dictionary holds:
 \*   grid, widths : the centres and widths the binner exposes with this call (native binner: the arguments)
 \*   val          : the binned spectrum;  tau : the binned optical depths, row by row (<<>>: not in the result)
@@ -143,22 +158,20 @@ Res(v, s, op) ==
     LET g   == op.g
         bin == v.kind # "native"
         s1  == Step(v, s, op)          \* the output dictionary aliases the binner's widths
-        wts == IF v.kind = "flux" THEN Weights(v, s, g, op.wm) ELSE <<>>
+        m   == CallOf(v, s, op)
     IN  IF op.k = "output"
         THEN [grid   |-> IF bin THEN s.c ELSE Pts(g),
               widths |-> IF bin THEN s1.w ELSE <<>>,
-              val    |-> Binned(v, s, g, wts, FSeq(g)),
-              tau    |-> IF bin /\ op.size # "lighter" THEN [r \in 1..2 |-> Binned(v, s, g, wts, TauRows(g)[r])] ELSE <<>>,
+              val    |-> m.val,
+              tau    |-> IF bin /\ op.size # "lighter" THEN m.tau ELSE <<>>,
               err2   |-> <<>>,
               wlw    |-> IF bin THEN [i \in 1..NB |-> WlW(s.c[i], s.w[i])] ELSE <<>>,
               native |-> <<Pts(g), FSeq(g)>>]
         ELSE [grid   |-> IF bin THEN s.c ELSE Pts(g),
               widths |-> IF bin THEN s.w ELSE IF op.wm = "explicit" THEN Grids[g].xw ELSE <<>>,
-              val    |-> Binned(v, s, g, wts, FSeq(g)),
+              val    |-> m.val,
               tau    |-> <<>>,
-              err2   |-> IF ~op.err \/ v.kind = "simple" THEN <<>>
-                         ELSE IF v.kind = "flux" THEN FluxErr2(wts, ESeq(g))
-                         ELSE [k \in 1..NP(g) |-> Q(EVal(g, k) * EVal(g, k))],
+              err2   |-> IF op.err THEN m.err2 ELSE <<>>,
               wlw    |-> <<>>,
               native |-> <<>>]
 
